@@ -193,7 +193,15 @@ impl Prop for C04 {
                 ctx.class("compile_error:limit");
                 return Ok(());
             }
-            return ctx.fail("C04/compile-error-on-nonempty-language", || format!("grammar {} failed to compile: {}", g.text(), e));
+            // known finding: derivre's or-simplification (ExprSet::trie_rec under mk_or) unwraps a None for a nested
+            // alternation of classes with multi-byte characters, e.g. /[é-€ -1é]/ | ( /[é]/ | /[^a-é0]/ ) | /b0|c€/
+            let gt = g.text();
+            let key = if e.starts_with("panic: called `Option::unwrap()` on a `None` value") && gt.contains("| (") && !gt.is_ascii() {
+                "C04/nested-alternation-of-multibyte-classes-panics-at-compile"
+            } else {
+                "C04/compile-error-on-nonempty-language"
+            };
+            return ctx.fail(key, || format!("grammar {} failed to compile: {}", g.text(), e));
         }
         ctx.class(&format!("render:{:?}", render));
         let mut feats = vec![];
